@@ -4,6 +4,8 @@ package stublog
 
 import (
 	"context"
+	"encoding/hex"
+	"encoding/json"
 	"fmt"
 	"net/http"
 	"strconv"
@@ -203,6 +205,80 @@ func (l *Log) TilesHandler() http.Handler {
 				out = append(out, hh[:]...)
 			}
 			w.Write(out)
+		default:
+			http.NotFound(w, r)
+		}
+	})
+}
+
+// ---- Pixel binary transparency layout (tlog tiles of height 1, checkpoint.txt) ----
+
+// PixelHandler serves checkpoint.txt and tile/1/<L>/<NNN>[.p/<W>].
+func (l *Log) PixelHandler() http.Handler {
+	return http.HandlerFunc(func(w http.ResponseWriter, r *http.Request) {
+		l.record(r)
+		if l.Hostile != nil && l.Hostile(w, r) {
+			return
+		}
+		p := strings.TrimPrefix(r.URL.Path, "/")
+		if p == "checkpoint.txt" {
+			w.Write(l.Checkpoint())
+			return
+		}
+		t, err := tlog.ParseTilePath(p)
+		if err != nil {
+			http.NotFound(w, r)
+			return
+		}
+		tr, size := l.tree()
+		if (uint64(t.N)*uint64(1<<uint(t.H))+uint64(t.W))<<uint(t.H*t.L) > size {
+			http.Error(w, "tile beyond tree size", 404)
+			return
+		}
+		data, err := tlog.ReadTileData(t, tlog.HashReaderFunc(func(idx []int64) ([]tlog.Hash, error) {
+			out := make([]tlog.Hash, len(idx))
+			for i, x := range idx {
+				lv, n := tlog.SplitStoredHashIndex(x)
+				out[i] = node(tr, lv, n)
+			}
+			return out, nil
+		}))
+		if err != nil {
+			http.Error(w, err.Error(), 404)
+			return
+		}
+		w.Write(data)
+	})
+}
+
+// ---- Rekor ----
+
+// RekorHandler serves api/v1/log and api/v1/log/proof for tree id `treeID`.
+func (l *Log) RekorHandler(treeID string) http.Handler {
+	return http.HandlerFunc(func(w http.ResponseWriter, r *http.Request) {
+		l.record(r)
+		if l.Hostile != nil && l.Hostile(w, r) {
+			return
+		}
+		switch {
+		case r.URL.Path == "/api/v1/log":
+			_, size := l.tree()
+			b, _ := json.Marshal(map[string]any{"signedTreeHead": string(l.Checkpoint()), "treeID": treeID, "treeSize": size, "rootHash": ""})
+			w.Write(b)
+		case r.URL.Path == "/api/v1/log/proof":
+			first, _ := strconv.ParseUint(r.URL.Query().Get("firstSize"), 10, 64)
+			last, _ := strconv.ParseUint(r.URL.Query().Get("lastSize"), 10, 64)
+			tr, size := l.tree()
+			if first == 0 || first > last || last > size {
+				http.Error(w, "bad sizes", 400)
+				return
+			}
+			hashes := []string{}
+			for _, h := range tr.ConsistencyProof(first, last) {
+				hashes = append(hashes, hex.EncodeToString(h))
+			}
+			b, _ := json.Marshal(map[string]any{"hashes": hashes})
+			w.Write(b)
 		default:
 			http.NotFound(w, r)
 		}
